@@ -22,6 +22,8 @@ fn n_cases(tier: Tier) -> u64 {
 fn doc_of(sources: &Sources) -> Result<Result<Value, String>, crate::engine::PanicInfo> {
     catch(|| match pipeline(sources, None) {
         Outcome::Document { yaml, .. } => yaml_to_json(&yaml),
+        // The verdict with the compiler's own message (it tells root causes apart).
+        Outcome::Rejected(LoadError::Compiler(e)) => Err(format!("rejected:{}:{}", kind_name(&e.kind), e.to_string().split(": ").last().unwrap_or(""))),
         other => Err(other.verdict()),
     })
 }
@@ -37,16 +39,54 @@ pub fn compare(before: &Sources, after: &Sources, steps: &[&str], r: &mut CaseRe
     r.label("compared");
     match doc_of(after) {
         Err(p) => r.fail(Failure::new(p.signature(), format!("the rewritten program ({steps:?}) makes the pipeline panic at {}: {}", p.location, p.message))),
-        Ok(Err(verdict)) => r.fail(Failure::new(
-            format!("c05:rewritten-program-{}:{}", verdict.split(':').next().unwrap_or(""), steps.last().copied().unwrap_or("")),
-            format!("after {steps:?} the program is no longer compiled to a document: {verdict}"),
-        )),
+        Ok(Err(verdict)) => {
+            if verdict.contains("ill-formed recursion, not a schema") && rec_over_parameter(after) {
+                r.label("rec-over-parameter");
+            }
+            r.fail(Failure::new(
+                format!("c05:rewritten-program-{verdict}"),
+                format!("after {steps:?} the program is no longer compiled to a document: {verdict}"),
+            ))
+        }
         Ok(Ok(d1)) => {
             if let Err(diff) = equivalent(&d1, &d0) {
                 r.fail(Failure::new(format!("c05:document-changes:{}", steps.last().copied().unwrap_or("")), format!("after {steps:?}: {diff}")));
             }
         }
     }
+}
+
+/// Structural precondition of the known finding F17: some function body has a `rec` whose body is
+/// (in parentheses or not) one of the function's parameters.
+fn rec_over_parameter(sources: &Sources) -> bool {
+    for text in sources.files.values() {
+        let toks = crate::gen::text::split_tokens(text);
+        let mut params: Vec<String> = Vec::new();
+        let mut i = 0;
+        while i < toks.len() {
+            if toks[i] == "let" {
+                params.clear();
+                let mut j = i + 2;
+                while j < toks.len() && toks[j] != "=" {
+                    params.push(toks[j].clone());
+                    j += 1;
+                }
+                i = j;
+                continue;
+            }
+            if toks[i] == "rec" && i + 2 < toks.len() {
+                let mut j = i + 2;
+                while j < toks.len() && (toks[j] == "(" || toks[j].starts_with('#')) {
+                    j += 1;
+                }
+                if j < toks.len() && params.contains(&toks[j]) {
+                    return true;
+                }
+            }
+            i += 1;
+        }
+    }
+    false
 }
 
 impl Property for C05 {
